@@ -651,7 +651,7 @@ impl<'a> Machine<'a> {
                 };
             }
             "ret" | "jr" | "jalr" => {
-                // forms: ret | jr rs | jalr rs | jalr rd, rs, imm | jalr rd, imm(rs) | jalr rd, (rs)
+                // forms: ret | jr rs | jalr rs | jalr rs, imm | jalr rd, rs, imm | jalr rd, imm(rs) | jalr rd, (rs)
                 let (d, base, off) = match mn {
                     "ret" => (ZERO, RA, 0i64),
                     "jr" => match rd_of(0) {
@@ -660,6 +660,8 @@ impl<'a> Machine<'a> {
                     },
                     _ => match (ins.ops.first(), ins.ops.get(1), ins.ops.get(2)) {
                         (Some(Opd::R(s)), None, None) => (RA, *s, 0),
+                        // RARS: `jalr rs, imm` links into ra
+                        (Some(Opd::R(s)), Some(Opd::I(i)), None) => (RA, *s, *i),
                         (Some(Opd::R(d)), Some(Opd::R(s)), Some(Opd::I(i))) => (*d, *s, *i),
                         (Some(Opd::R(d)), Some(Opd::M(i, s)), None) => (*d, *s, *i),
                         _ => trap!("bad operands"),
